@@ -48,10 +48,11 @@ VARIABLES l,
           mtag,    \* class tags of the main object ("midtx": it descends from a copy taken inside a transaction;
                    \* "copied": it is a copy, not yet reopened)
           ftags,   \* class tags of the frozen objects
+          chist,   \* live dumps at the Commits / Reloads made through the current Database, oldest first
           clive,   \* <<live dump of the last Commit / Reload / Restart of the main object>> or <<>>
           flive,   \* <<live dump at the commit whose roots were flushed last>> or <<>>
           viol, fired
-vars == <<l, seen, frozen, unc, taint, txopen, mtag, ftags, clive, flive, viol, fired>>
+vars == <<l, seen, frozen, unc, taint, txopen, mtag, ftags, chist, clive, flive, viol, fired>>
 
 Comp == <<"accounts", "validators", "stat", "index", "queue", "records", "relations", "error">>
 Err(d) == d[8] # ""
@@ -82,6 +83,16 @@ DiskReopen(e) ==
         IF d = {} THEN {} ELSE { <<"ReopenEqualsLive", d \cup Tags, l, 0>> }
    ELSE {}
 
+\* an EARLIER committed root triple reopened through the same Database after the live object has gone on: the dump recorded at
+\* THAT commit, and the reopened state re-hashes to the roots it was opened from
+OldReopen(e) ==
+   IF e.ev = "ReloadOld" /\ "re" \in DOMAIN e /\ e.args.d <= Len(chist) /\ ~Err(chist[Len(chist) - e.args.d + 1])
+   THEN LET c == chist[Len(chist) - e.args.d + 1]
+            d == { "old:" \o x : x \in Diff(c, e.re) } \cup { "oldenum:" \o x : x \in Diff(c, e.raw) }
+                   \cup (IF e.reroots # e.roots THEN {"old:roots"} ELSE {}) IN
+        IF d = {} THEN {} ELSE { <<"ReopenEqualsLive", d \cup Tags, l, 0>> }
+   ELSE {}
+
 CopyEq(e) ==
    IF e.ev \notin {"Copy", "CopySwap"} THEN {}
    ELSE LET d == Diff(e.orig, e.copy) IN
@@ -89,15 +100,21 @@ CopyEq(e) ==
 
 \* frozen objects: e.fz[k] (after an operation) / e.enddumps[k+1] (at the end) against frozen[k]
 Indep(e) ==
-   LET cur == IF "fz" \in DOMAIN e THEN e.fz ELSE IF "enddumps" \in DOMAIN e THEN Tail(e.enddumps) ELSE <<>>
-       K == { k \in DOMAIN cur : k \in DOMAIN frozen /\ ~Err(frozen[k]) /\ cur[k] # frozen[k] } IN
+   LET cur == IF "fz" \in DOMAIN e THEN e.fz ELSE <<>>
+       \* the frozen object written by AddRecordOther legitimately changes (its new dump is remembered); the others must not
+       skip == IF e.ev = "AddRecordOther" THEN {Len(frozen)} ELSE {}
+       K == { k \in DOMAIN cur : k \in DOMAIN frozen /\ k \notin skip /\ ~Err(frozen[k]) /\ cur[k] # frozen[k] } IN
    { <<"CopyIndependent", Diff(frozen[k], cur[k]) \cup {e.ev} \cup Tags, l, 0>> : k \in K }
+   \cup (IF e.ev = "AddRecordOther" /\ "main" \in DOMAIN e /\ e.main # e.mainpre
+         THEN { <<"CopyIndependent", Diff(e.mainpre, e.main) \cup {e.ev, "main"} \cup Tags, l, 0>> } ELSE {})
 
 \* root observations of event e: set of <<dump, roots, class tags of the object>>
 MainTags == mtag \cup (IF taint THEN {"tainted"} ELSE {})
 ObjTags(k) == IF k = 1 THEN MainTags ELSE IF (k - 1) \in DOMAIN ftags THEN ftags[k - 1] ELSE {}
 RootObs(e) ==
-   (IF e.ev \in {"Root", "Commit", "Reload"} /\ "live" \in DOMAIN e THEN { <<e.live, e.roots, MainTags>> } ELSE {})
+   (IF e.ev \in {"Root", "Commit", "Reload"} /\ "live" \in DOMAIN e THEN { <<e.live, e.roots, MainTags>>, <<e.pre, e.roots, MainTags>> } ELSE {})
+   \* (the dump taken BEFORE the root computation is content too: what was written is what the getters showed then)
+   \cup (IF "endpre" \in DOMAIN e THEN { <<e.endpre[k], e.endroots[k], ObjTags(k)>> : k \in DOMAIN e.endroots } ELSE {})
    \cup (IF "endroots" \in DOMAIN e THEN { <<e.enddumps[k], e.endroots[k], ObjTags(k)>> : k \in DOMAIN e.endroots } ELSE {})
 Usable(e) == { o \in RootObs(e) : ~Err(o[1]) }
 
@@ -105,10 +122,10 @@ SameRoots(e) ==
    { <<"SameContentSameRoots", RootDiff(seen[o[1]][1], o[2]) \cup o[3] \cup seen[o[1]][3], l, seen[o[1]][2]>> :
         o \in { p \in Usable(e) : p[1] \in DOMAIN seen /\ seen[p[1]][1] # p[2] } }
 
-ZeroFired == [DiskReopens |-> 0, Reopens |-> 0, CopyEqs |-> 0, Indeps |-> 0, RootObsN |-> 0, RootsCompared |-> 0, Failures |-> 0, Contents |-> 0]
+ZeroFired == [OldReopens |-> 0, BothSides |-> 0, DiskReopens |-> 0, Reopens |-> 0, CopyEqs |-> 0, Indeps |-> 0, RootObsN |-> 0, RootsCompared |-> 0, Failures |-> 0, Contents |-> 0]
 
 Init == /\ l = 1 /\ seen = <<>> /\ frozen = <<>> /\ unc = {} /\ taint = FALSE /\ txopen = FALSE /\ mtag = {} /\ ftags = <<>>
-        /\ clive = <<>> /\ flive = <<>>
+        /\ chist = <<>> /\ clive = <<>> /\ flive = <<>>
         /\ viol = {} /\ fired = ZeroFired
 
 RECURSIVE AddAll(_, _)
@@ -122,20 +139,25 @@ Step ==
    /\ LET e == TraceLog[l] IN
       IF e.ev \in {"reset", "abort"}
       THEN /\ frozen' = <<>> /\ unc' = {} /\ taint' = FALSE /\ txopen' = FALSE /\ mtag' = {} /\ ftags' = <<>>
-           /\ clive' = <<>> /\ flive' = <<>>
+           /\ chist' = <<>> /\ clive' = <<>> /\ flive' = <<>>
            /\ UNCHANGED <<seen, viol, fired>>
       ELSE IF "panic" \in DOMAIN e
       THEN /\ viol' = viol \cup Fresh({ <<"Readable", {e.ev} \cup Tags, l, 0>> })
            /\ fired' = [fired EXCEPT !.Failures = @ + 1]
-           /\ UNCHANGED <<seen, frozen, unc, taint, txopen, mtag, ftags, clive, flive>>
-      ELSE LET C == Reopen(e) \cup DiskReopen(e) \cup CopyEq(e) \cup Indep(e) \cup SameRoots(e)
+           /\ UNCHANGED <<seen, frozen, unc, taint, txopen, mtag, ftags, chist, clive, flive>>
+      ELSE LET C == Reopen(e) \cup DiskReopen(e) \cup OldReopen(e) \cup CopyEq(e) \cup Indep(e) \cup SameRoots(e)
                U == Usable(e) IN
            /\ viol' = viol \cup Fresh(C)
            /\ seen' = AddAll(seen, U)
            /\ frozen' = CASE e.ev = "Copy" -> Append(frozen, e.copy)
                           [] e.ev = "CopySwap" -> Append(frozen, e.orig)
+                          [] e.ev = "AddRecordOther" /\ "fz" \in DOMAIN e /\ Len(frozen) > 0 /\ Len(e.fz) = Len(frozen)
+                               -> [frozen EXCEPT ![Len(frozen)] = e.fz[Len(frozen)]]
                           [] OTHER -> frozen
            /\ clive' = IF e.ev \in {"Commit", "Reload", "Restart"} THEN <<e.live>> ELSE clive
+           /\ chist' = CASE e.ev \in {"Commit", "Reload"} -> Append(chist, e.live)
+                         [] e.ev = "Restart" -> <<e.live>>
+                         [] OTHER -> chist
            /\ flive' = IF e.ev = "Flush" THEN clive ELSE flive
            /\ unc' = IF e.ev \in {"Commit", "Reload", "Restart"} THEN {} ELSE unc \cup {e.ev}
            /\ LET mid == IF txopen THEN {"midtx"} ELSE {} IN
@@ -146,10 +168,12 @@ Step ==
                             [] e.ev \in {"Reload", "Restart"} -> mtag \ {"copied"}
                             [] OTHER -> mtag
            /\ txopen' = CASE e.ev \in {"Finalise", "Root", "Commit", "Reload", "CopySwap", "End", "Restart"} -> FALSE
-                           [] e.ev \in {"Copy", "Flush", "GC"} -> txopen
+                           [] e.ev \in {"Copy", "Flush", "GC", "ReloadOld", "AddRecordOther"} -> txopen
                            [] OTHER -> TRUE
-           /\ taint' = (taint \/ (e.ev = "CopySwap" /\ CopyEq(e) # {}) \/ Reopen(e) # {} \/ DiskReopen(e) # {})
-           /\ fired' = [fired EXCEPT !.DiskReopens = @ + (IF (e.ev = "Flush" /\ clive # <<>>) \/ (e.ev = "Restart" /\ flive # <<>>) THEN 1 ELSE 0),
+           /\ taint' = (taint \/ (e.ev = "CopySwap" /\ CopyEq(e) # {}) \/ Reopen(e) # {} \/ DiskReopen(e) # {} \/ OldReopen(e) # {})
+           /\ fired' = [fired EXCEPT !.OldReopens = @ + (IF e.ev = "ReloadOld" /\ "re" \in DOMAIN e THEN 1 ELSE 0),
+                                     !.BothSides = @ + (IF e.ev = "AddRecordOther" /\ "main" \in DOMAIN e THEN 1 ELSE 0),
+                                     !.DiskReopens = @ + (IF (e.ev = "Flush" /\ clive # <<>>) \/ (e.ev = "Restart" /\ flive # <<>>) THEN 1 ELSE 0),
                                      !.Reopens = @ + (IF e.ev \in {"Commit", "Reload"} THEN 1 ELSE 0),
                                      !.CopyEqs = @ + (IF e.ev \in {"Copy", "CopySwap"} THEN 1 ELSE 0),
                                      !.Indeps = @ + (IF "fz" \in DOMAIN e THEN Len(e.fz) ELSE 0),
